@@ -159,6 +159,12 @@ def _cmp(acc, name, exp, f):
         acc.fail(name, exp, o)
 
 
+def _cmp_eq(acc, name, exp, a, b):
+    """a() == b() must be exp, and a() != b() its negation (the two operators are separate methods)"""
+    _cmp(acc, name, exp, lambda: bool(a() == b()))
+    _cmp(acc, name + " (operator !=)", not exp, lambda: bool(a() != b()))
+
+
 def _check_layout(case, acc):
     from mc import dsl
     C = _classes()
@@ -272,7 +278,7 @@ def check(case, acc):
             _cmp(acc, "len(concatenate)", n + m, lambda: len(np.concatenate([mk(), mk2()])))
         else:
             e = (n == m) and all(np.array_equal(x, y) for x, y in zip(f, f2))
-            _cmp(acc, "equality", e, lambda: bool(mk() == mk2()))
+            _cmp_eq(acc, "equality", e, mk, mk2)
             if n == m and n > 0 and k >= 2:
                 # equal first field, different last field: columns must all take part
                 g = [x.copy() for x in f]
@@ -284,8 +290,8 @@ def check(case, acc):
                 g1 = [x.copy() for x in f]
                 g2 = [x.copy() for x in f]
                 g1[1], g2[1] = col, np.repeat(col, 3, axis=1)
-                _cmp(acc, "equality-field-widths-differ", False, lambda: bool(K(*g1) == K(*g2)))
-                _cmp(acc, "equality-field-widths-differ(rev)", False, lambda: bool(K(*g2) == K(*g1)))
+                _cmp_eq(acc, "equality-field-widths-differ", False, lambda: K(*g1), lambda: K(*g2))
+                _cmp_eq(acc, "equality-field-widths-differ(rev)", False, lambda: K(*g2), lambda: K(*g1))
     elif kind == "inherit":
         # the base class is used first, then the subclass with one more field: all three columns must take part
         acc.feature("inherited_class")
@@ -308,16 +314,16 @@ def check(case, acc):
             if not is_refused(o):
                 acc.fail("fields-of-different-length-accepted", "refused", o)
     elif kind == "eqself":
-        _cmp(acc, "equality-self", True, lambda: bool(mk() == mk()))
+        _cmp_eq(acc, "equality-self", True, mk, mk)
         if n >= 2:
             # equally many ELEMENTS in columns of different shape: one entry of width n against n entries; an (n, 1) against an (n,) column
             acc.feature("equality_same_size_other_shape")
             v = np.arange(n) + 3
             K1 = C[1]
-            _cmp(acc, "equality-one-wide-entry-vs-n-entries", False, lambda: bool(K1(v.reshape(1, n).copy()) == K1(v.copy())))
+            _cmp_eq(acc, "equality-one-wide-entry-vs-n-entries", False, lambda: K1(v.reshape(1, n).copy()), lambda: K1(v.copy()))
             _cmp(acc, "equality-n-entries-vs-one-wide-entry", False, lambda: bool(K1(v.copy()) == K1(v.reshape(1, n).copy())))
             c7 = np.full(n, 7)
-            _cmp(acc, "equality-(n,1)-vs-(n,)", False, lambda: bool(K1(c7.reshape(n, 1).copy()) == K1(c7.copy())))
+            _cmp_eq(acc, "equality-(n,1)-vs-(n,)", False, lambda: K1(c7.reshape(n, 1).copy()), lambda: K1(c7.copy()))
         if k == 3 and n:
             # a NaN entry is unequal to itself: a table holding one is not equal to a table built from the very same column objects, nor to itself
             acc.feature("equality_nan_shared_column")
